@@ -29,11 +29,11 @@ GROUP = dict(
              text='clean_up_dependencies keeps of every artifact exactly the occurrence nearest to the roots, the first in declaration order on the same depth, drops every rival together with its whole subtree '
                   '(an artifact that only occurs below a loser disappears, one that occurs below a loser and elsewhere is judged among the survivors only), keeps everything else in place, and the breadth-first '
                   'list of the result is the breadth-first list of the winners without duplicates.',
-             bound='all 345895 ordered forests with 0..5 nodes labelled with 3 artifacts x 2 versions (Catalan(n) shapes x 6^n labellings)'),
+             bound='all 345895 ordered forests with 0..5 nodes (Catalan(n) shapes x 6^n labellings) over the labels a:1, a:2, b:1, b:2, c:1, d:1'),
         dict(name='mediation_identity_is_group_artifact_classifier_type', props=['C19'], tier='quick', timeout=600,
              text='Two occurrences conflict exactly when group, artifact, classifier and type agree: version, scope and repository do not distinguish them, another group, classifier or type does; '
                   'the winner keeps its own version, scope and repository.',
-             bound='all 35436 ordered forests with 0..4 nodes over 7 labels (a:1 compile@first, a:2 test@second, other group, classifier sources, type war, b:1 runtime, b:2)'),
+             bound='all 35435 ordered forests with 0..4 nodes over 7 labels (a:1 compile@first, a:2 test@second, other group, classifier sources, type war, b:1 runtime, b:2)'),
         dict(name='scope_table_and_optional_through_three_levels', props=['C19'], tier='quick', timeout=600,
              text='Through get_maven_dependencies on generated POM XML: a dependency chain root -> x -> y -> z is followed exactly as far as the documented scope table allows (provided / test / system '
                   'declarations are not transitive, compile and runtime compose as in the table, an omitted scope is compile), optional dependencies (only an explicit true) are cut with everything below them, '
@@ -44,25 +44,25 @@ GROUP = dict(
                   'declaration order breaks ties, subtrees of losers discarded, scopes composed from the root scope), every entry names the repository that served its POM, no artifact occurs twice, '
                   'and every entry survives printing and parsing.',
              bound='artifacts a, b, c in versions 1 and 2; every version of a declares at most one b and one c in either order (13 lists), every version of b nothing or one c (3 lists): 13^2 x 3^2 = 1521 universes '
-                   'x 157 root lists (empty; each of the 6 coordinates as compile / test; each ordered pair as compile+compile / compile+test) = 238797 cases'),
+                   'x 85 root lists (empty; each of the 6 coordinates as compile / test; each of the 36 ordered pairs, repetitions included, as compile+compile / compile+test) = 129285 cases'),
         dict(name='effective_pom_inherits_through_the_parent_chain', props=['C19'], tier='quick', timeout=900,
              text='get_merged_pom and get_maven_dependencies: groupId and version are the own ones or else the nearest ancestor\'s, packaging is not inherited, the dependencies are the own ones followed by the '
                   "parent's followed by the grandparent's, a dependency without version is filled from the nearest ancestor's dependencyManagement (version and scope), a POM without parent that lacks groupId or "
                   'version is refused, as is a version-less dependency nobody manages.',
              bound='chains of depth 1..3 x the top-most POM complete / without groupId / without version x child and parent with own or omitted groupId and version x 3 dependency lists per level '
-                   '(with scopes and an optional one) x parent / grandparent managing the artifact m or not x child depending on m without version or not x packaging omitted / jar / war; each as root in scope compile and test'),
+                   '(with scopes and an optional one) x parent / grandparent managing the artifact m or not x child depending on m without version or not x packaging omitted / jar / war = 32454 universes; each: effective POM once, resolution as root in scope compile and test (64908 counted cases)'),
         dict(name='effective_pom_management_and_imports', props=['C19'], tier='quick', timeout=900,
              text='get_merged_pom and get_maven_dependencies: omitted versions and scopes of the dependencies are filled from the effective dependencyManagement, explicit ones are kept; the management entry that counts '
                   "is the POM's own, else the one of the first import (in declaration order) that has it, else the parent's; an imported BOM contributes its own effective management (its parent's and its own imports "
                   'included); entries are matched by group, artifact, type and classifier (a classifier or another type is another entry; type test-jar implies classifier tests); a version-less dependency nothing '
                   'manages is refused; a managed scope test / provided cuts the dependency below a root like a declared one.',
              bound='child POM with 89 dependency lists (all lists of 0..2 entries with distinct keys out of 10 declarations of x / x:s / x war / y / z / w / y test-jar with and without version, scope, optional) '
-                   'x 5 own management lists x 7 import lists over three BOMs (b1, b2 overlapping on x; b3 with a managing parent and importing b1) x 25 parents (none; 4 management lists x with / without import of b2 x 3 dependency lists) '
-                   '= 77875 universes, minus those outside the quantifier (NOTE line)'),
+                   'x 5 own management lists x 7 import lists over three BOMs (b1, b2 overlapping on x; b3 with a managing parent and importing b1) x 25 parents (none; 4 management lists x with / without import of b2 x own dependency none / q:1 / q managed by the parent) '
+                   '= 77875 universes, of which 52777 inside the statement (25098 skipped: the precedence between an import of the child and an explicit entry of the parent is not stated)'),
         dict(name='inherited_dependencies_use_the_management_of_the_inheriting_pom', props=['C19'], tier='quick', timeout=600,
              text="A dependency inherited from the parent is filled in by the effective management of the inheriting POM (Maven Model Builder: inheritance assembly precedes dependency management injection): "
                   "the child's managed version / scope of x wins over the parent's for the parent's version-less (scope-less) dependency on x, and a parent's version-less dependency that only the child manages is accepted.",
-             bound='parent: 3 management lists x 4 declarations of x (with / without version, with / without scope); child: no management / x:2 / x:2 provided / import of a BOM with x:b2 runtime; root scope compile / runtime: 96 cases'),
+             bound='parent: 3 management lists x 4 declarations of x (with / without version, with / without scope); child: no management / x:2 / x:2 provided / import of a BOM with x:b2 runtime; root scope compile / runtime: 96 cases, 16 skipped (import of the child against an explicit entry of the parent)'),
         dict(name='repositories_are_asked_in_order', props=['C19'], tier='quick', timeout=600,
              text='Every POM (root, its parent, its dependencies) is taken from the first repository of the list that has it, independently for every POM; the content of that repository counts when repositories '
                   'disagree; a resolved dependency names the repository of its own POM; nothing resolved when some needed POM is nowhere; URLs follow the repository layout for base URLs with and without '
